@@ -100,7 +100,20 @@ type Env struct {
 }
 
 // NewEnv builds an environment over a fresh MapDB with the basic platform.
+// The contract manager's store directory is removed again right away (nothing
+// is left under /tmp even if the process later dies): scripted and transfer
+// transactions never store contract code. Use NewEnvKeepDir for deployments.
 func NewEnv() (*Env, error) {
+	e, err := NewEnvKeepDir()
+	if err == nil {
+		os.RemoveAll(e.dir)
+		e.dir = ""
+	}
+	return e, err
+}
+
+// NewEnvKeepDir is NewEnv with a contract store directory that lives until Close.
+func NewEnvKeepDir() (*Env, error) {
 	Quiet()
 	RegisterScriptFactory()
 	e := &Env{T: &QuietT{}, DB: db.NewMapDB(), Platform: basic.Platform, Log: QuietLogger()}
